@@ -55,6 +55,30 @@ CLAIMS.update({
              tech="Coq proof (DFS relation, mutual induction) + correspondence", ref="5 C20"),
 })
 
+CLAIMS.update({
+ "C03": dict(text="Proof: exactness of the dataflow result (ExactLemmas, L6): with an exact leaf concretisation every value in a block's solver result is justified by a literal accepting path through the block, and with the soundness laws + graph_wf the result is exactly the literal reading; hence if no literal accepting path admits the dangerous value no block of any candidate path is unvalidated and the DFS reports nothing; && / || / ! exactness for every nesting. Tie: regenerated leaf functions and checks_* predicates, correspondence on contexts and path lists; literal-reading oracle (tools/oracle.py) that enumerates accepting paths with literal constraint reading and demands silence.",
+             note="Exactness is stated per domain for the forward/backward composition the model implements; the independence of two-field detectors is the model's `validated_in_block` (a conjunction over fields). Known findings D12 (backward pass ignores edge constraints), D2, D25 (Fee > 2^64-1 literal) excluded explicitly. Subroutines called from several sites: merged call sites are part of the literal reading (as in the property's C06 exception).",
+             tech="Coq proof (least-fixpoint exactness, induction over worklist runs) + correspondence + literal oracle", ref="5 C03"),
+ "C12": dict(text="Proof: construct_function on path [B0] returns the whole-contract function itself (record equality: blocks, instruction text, lines, edges, shared subroutines) for every structured program, with a refutation showing the hypothesis is needed; accepted dispatch paths = duplicate-free successor chains from B0; for longer paths every successor of a path block other than the next path block is a fresh err block (single custom err instruction, no successors, constraint = null in every domain). Contexts: the function is analysed by the same `run_all` whose C06-C10 theorems are stated for any func value. Tie: correspondence on function dumps (blocks/edges/err blocks/contexts) for random dispatch paths; construction purity checked by re-dumping the contract's graph after building functions in different orders.",
+             note="The statement 'contains exactly the executions that start with the path' is derived from the cut-spec + C04 walk property, not yet composed into one theorem: partial. Fixed defect D24 (9981add) lives here.",
+             tech="Coq proof (structural, list surgery lemmas) + correspondence", ref="5 C12"),
+ "C13": dict(text="Proof: txn_vulnerable = true iff eligible and neither own contracts, nor absolute-index readers, nor offset readers clear the value at every exit (vulnerable_iff); offset inversion is exact under distinct transaction ids (relative_accessors_spec: other reads t at offset off iff other's configured relative index off points to t); a group of one transaction with one logic-sig gives the single-contract criterion (single_logic_sig). Tie: correspondence on verdict lists over random group configurations x detectors (model verdict vs tealer group-mode detector output).",
+             note="The semantic clause ('whenever a concrete group consistent with the configuration is approved by every contract ...') reduces to C01/C10 per member contract; the composition over several contracts is not a theorem: partial. YAML parsing of the configuration is outside the model (configurations are built through the Python API).",
+             tech="Coq proof (boolean reflection of the verdict function) + correspondence", ref="5 C13"),
+ "C14": dict(text="Proof: the analysis result is a function of the program text only: the worklist solver reaches the same least solution for every processing order (SolverLemmas.order_independence, any worklist discipline, any fuel that suffices), paths are a deterministic function of the graph. Runtime part (hash seeds, process history, detector order, byte-identical JSON) cannot be exhibited by a pure model: decided by differential runs of the real CLI/API under several PYTHONHASHSEED values (0, 1, 7, 99, 4242, 31337), repeated and re-ordered analyses in one process, detector re-registration; every run must equal the (deterministic) model output.",
+             note="Partial: the theorem covers schedule independence of the algorithm; independence from interpreter state is established by runs (tie against the deterministic extracted model, which by construction has no history or seed).",
+             tech="Coq proof (confluence of the worklist iteration) + correspondence under varied seeds/orders/histories", ref="5 C14"),
+ "C15": dict(text="Proof: integer spelling (dec/hex/octal, all n), indentation/trailing blanks/comments, pushint vs int, named type/completion constants over the regenerated tables, intc/intc_k vs int, injective label renaming (whole parse result equal up to label names), comment/blank-line insertion (only line numbers shift; line numbers never influence the graph). Tie: metamorphic correspondence: each program and its rewrites are run through the implementation, contexts and verdicts must coincide modulo line renumbering, and both must match the model.",
+             note="Stack-neutral padding and moving subroutine bodies change block numbering/contents; they are covered by the metamorphic runs only (no theorem): partial.",
+             tech="Coq proof (parser lemmas over regenerated tables) + metamorphic correspondence", ref="5 C15"),
+ "C17": dict(text="Proof: every table/graph lookup the analyses perform is defined on structured programs (graph_ok: successors/predecessors/callsub tables/return points name existing blocks; no dangling block), and the model's solver terminates within its fuel bound by the monotone-height argument (SolverLemmas). Tie: the real CLI (detect text+JSON, all five printers) is run on generated programs incl. dead branches/calls, loops, recursion, trailing branch/call; any traceback or non-zero exit without a user-level error is a violation; the model's Exn/OutOfFuel outcomes are compared too.",
+             note="Partial: completion of Python code is a runtime property; the theorem covers the lookups and fixpoint termination of the model, the CLI sweep covers the glue. Known findings D3/D4/D17 shapes are listed; fixed defects D7, D8, D24.",
+             tech="Coq proof (definedness of lookups, termination measure) + CLI sweep", ref="5 C17"),
+ "C18": dict(text="Proof: the list the JSON/text report is produced from has no duplicates and is exactly the DFS result (count = length), retained blocks are duplicate-free (one node per block). Tie: DOT/JSON artefacts of the real CLI are read back: node set = model blocks with instruction text and line numbers, edge set = model global graph (callsub/retsub edges per C05), subroutine-cfg call boxes per call site, path DOT marks = path blocks, count/success fields, --filter-paths = regex filter on the short notation.",
+             note="Partial: rendering is Python glue; it is compared artefact-by-artefact against the model, not proved. Fixed defects D11a (21edef0), D11b (6b980c8), D8 (2b49d90).",
+             tech="Coq proof (NoDup/length facts of the reported list) + artefact read-back correspondence", ref="5 C18"),
+})
+
 
 def check_entry(pid, c):
     return {
@@ -79,7 +103,7 @@ m = {
                  "kind_free_text": "Coq 8.16 proofs about a Gallina model (coq/), regenerated tables + leaf functions, extracted OCaml driver diffed against tealer"}],
     "checks": [check_entry(p, CLAIMS[p]) for p in ids if p in CLAIMS],
     "not_applicable": [{"property_id": p, "reason": "check under construction in this round (model/proofs not yet registered)"} for p in ids if p not in CLAIMS],
-    "notes": "Fixes committed to /repo: 51e625d (C09 operand order), 0d60042 (C04 pruning), 157916e (C01 branch to next line), 17bdcba (C17 KeyError). Known findings: /verif/known_findings.json.",
+    "notes": "Fixes committed to /repo (all `fix:`): 51e625d 0d60042 157916e 17bdcba 398c4f0 52a41ad 25f0d78 ba5e9b1 de2251e 9981add 21edef0 6b980c8 2b49d90 (see known_findings.json `fixed`). Known findings: /verif/known_findings.json. Seeded changes and which checks catch them: DESIGN.md section 8.",
 }
 json.dump(m, open(os.path.join(ROOT, "MANIFEST.json"), "w"), indent=1)
 print("claimed:", sorted(CLAIMS))
